@@ -71,6 +71,7 @@ Definition is_matching (fs : fsys) (r : request) : sres bool :=
 (* FileExt::resolve_symlink_path, lexical *)
 Fixpoint resolve_symlink_lex (fuel : nat) (dir tgt : list N) : option (list N) :=
   match fuel with O => None | S f =>
+  if (match tgt with _ :: 58 :: _ => true | _ => false end) then Some tgt else      (* "windows specific check": second character ':' *)
   if is_abs tgt then Some tgt else
   match split_once tgt [47] with
   | None => Some (dir ++ [47] ++ tgt)
@@ -123,8 +124,9 @@ Definition get_content_range_list (fs : fsys) (uri' : list N) (range_value : lis
       | Some tgt =>
         let dir := match split_once (rev SP) [47] with Some (_, up) => rev up | None => [] end in
         match resolve_symlink_lex FUEL dir tgt with
-        | None => SPanic SSymlinkResolve
-        | Some path => parse_content_range fs true path L range_value   (* the owner's symlink: excepted by C01 *)
+        | None => SErr 500            (* fix 3697778: was an unwrap panic *)
+        | Some path =>                (* the owner's symlink: excepted by C01; a relative result is opened relative to the cwd *)
+          parse_content_range fs true (if is_abs path then path else cwd_str fs ++ [47] ++ path) L range_value
         end
       end
     | _, _ => SErr 500
